@@ -254,7 +254,11 @@ def soup(rng, surrogates_ok=False, max_atoms=40, long_prob=0.05):
     return atoms
 
 
-_LONG_FILLERS = ["y", "word ", "<i>q</i>", "&amp;", "\n", "\xe9", "x stray ", "a]b>c ", "ab-c ", "q\r\n", " ", "\t\n", "k=v "]
+_LONG_FILLERS = ["y", "word ", "<i>q</i>", "&amp;", "\n", "\xe9", "x stray ", "a]b>c ", "ab-c ", "q\r\n", " ", "\t\n", "k=v ",
+                 # runs of ONE syntactically active character or pattern: whatever the tokenizer does per occurrence (unget,
+                 # re-scan, error, held-back character) it does thousands of times in a row and across every chunk boundary
+                 "&", "<", "\r", "]]", "--", "\U0001f600", "e\u0301", "&#", "</", "<!", "\r\r\n", "'\"", "\x00", ">", "=", "/", "&x", "-", "]",
+                 "\ufeff", "&#x", ";", "<a>", "</a>", "\x0c", "\t"]
 # a long run is placed in every kind of tokenizer state / insertion mode, so
 # that a chunk boundary of the *shipped* chunk size falls inside each of them
 _LONG_CONTEXTS = [
@@ -284,18 +288,29 @@ def _make_long(rng, atoms, surrogates_ok):
         if pad:
             out.append("y" * pad)
     out.append(sensitive)
+    if rng.random() < 0.2:
+        # a SECOND long run (another filler, possibly after switching the context) up to the next multiple of the chunk size
+        out.extend(rng.choice([[], ["</script>"], ["-->"], ["'>"], ["</title>"], ["<p>"], ["<!--"], ["<textarea>"]]))
+        filler2 = rng.choice(_LONG_FILLERS)
+        have = sum(len(a) for a in out)
+        want2 = (have // 10240 + 1) * 10240 + rng.randint(-3, 2) - have
+        out.append(filler2 * max(1, want2 // len(filler2)))
+        out.append("z" * max(0, want2 - (want2 // len(filler2)) * len(filler2)))
+        out.append(rng.choice(["\r\n", "\r", "&amp;", "<b c=d>", "\U0001f600", "</x>", "\x00"]))
     for _ in range(rng.randint(0, 6)):
         out.append(atom(rng, surrogates_ok))
     return out
 
 
-def make_huge(rng):
+def make_huge(rng, giant=False):
     """A document with ONE run of 66-140 thousand characters (more than 2**16) in some context: thresholds on the length of
-    a single token / run / document are otherwise never crossed."""
+    a single token / run / document are otherwise never crossed.  giant: 1.05-2.2 million characters (2**20, 2**21)."""
     ctx = list(rng.choice([[], [], ["<!DOCTYPE html>"], ["<svg>", "<![CDATA["], ["<frameset>"], ["<?php "], ["<!x "], ["<!--"], ["<p title='"],
                            ["<script>"], ["<title>"], ["<textarea>"], ["<plaintext>"], ["<table>"], ["<pre>"], ["</body>"], ["<select>"]]))
     unit = rng.choice(["y", "word ", "ab-c ", "k=v ", "q\n", "x stray ", "\xe9 "])
     n = rng.choice([66000, 70000, 131100, 140000]) + rng.randint(-200, 200)
+    if giant:
+        n = rng.choice([1049000, 1100000, 1100000, 2098000, 2200000]) + rng.randint(-200, 200)
     run = unit * (n // len(unit))
     tail = [rng.choice(["]]>", "?>", ">", "-->", "'>", "</script>", "</title>", "</textarea>", "</table>", "</pre>", ""]),
             rng.choice(["<p>after", "</i>", "&amp;", "x"])]
